@@ -237,6 +237,13 @@ impl WebSocketClient {
         take_notify_sender(&self.inner);
     }
 
+    /// Number of requests currently registered as awaiting a response
+    /// (verification hook: "no residue" after timeouts, cancellation and failures).
+    #[cfg(feature = "verif-hooks")]
+    pub fn verif_pending_len(&self) -> usize {
+        lock_pending_map(&self.inner.pending).len()
+    }
+
     fn next_request_id(&self) -> u64 {
         self.inner.next_id.fetch_add(1, Ordering::Relaxed)
     }
